@@ -246,7 +246,36 @@ fn conflict_rename(seed: u64) -> Run {
     Run { world: w, horizon, desc: format!("conflict-rename jitter={jitter} at=+{at} update={update}") }
 }
 
+/// Host-name searches with short time-outs (0, 1, 5 ms ...) on a link where nobody answers, half of them on a
+/// daemon that does not hear its own questions: the time-out events are owed at the deadline all the same.
+fn hostname_timeouts(seed: u64) -> Run {
+    let mut rng = Rng::new(seed);
+    let mut w = World::new(seed);
+    w.set_stepping(Stepping::Lazy);
+    let h = w.add_host(if rng.chance(1, 2) { scen::single_v4() } else { scen::single_dual() });
+    w.set_ip_check_interval(h, 3600);
+    let deaf = rng.chance(1, 2);
+    if deaf {
+        w.set_multicast_loop_v4(h, false);
+        w.set_multicast_loop_v6(h, false);
+    }
+    let t0 = w.now();
+    let n = 1 + rng.below(3);
+    let mut desc = format!("hostname-timeouts deaf={deaf}:");
+    for k in 0..n {
+        let now = w.now();
+        w.run_until(now + 200 + rng.below(1500));
+        let timeout = *rng.pick(&[0u64, 0, 1, 5, 250, 999, 1000, 1001, 2500]);
+        let _ = w.resolve_hostname(h, &format!("quiet{k}.local."), Some(timeout));
+        desc.push_str(&format!(" resolve({timeout})"));
+    }
+    let horizon = w.now().max(t0) + 8000;
+    w.run_until(horizon);
+    Run { world: w, horizon, desc }
+}
+
 pub const SCENARIOS: &[(&str, ScenarioFn)] = &[
+    ("hostname-timeouts", hostname_timeouts),
     ("conflict-rename", conflict_rename),
     ("registration", from_c07),
     ("searches", from_c13),
@@ -329,14 +358,17 @@ pub fn w1(name: &str, f: ScenarioFn, seed: u64, l: &mut Local) {
     // one constant jitter per pair: the order in which the daemon visits its interfaces (a
     // HashMap) differs between the two runs and must not change who gets which jitter
     let jitter = Some(util::mix(seed, 7) % 250);
-    set_overrides(Some(Overrides { stepping: Some(Stepping::Lazy), record_gates: true, snapshot_level: 2, jitter_const: jitter, send_cost_ms: None }));
+    // one pair in four: the daemons do not hear their own multicast (loop-back switched off), so that nothing
+    // but their own timers wakes them
+    let no_loop = util::mix(seed, 10) % 4 == 0;
+    set_overrides(Some(Overrides { stepping: Some(Stepping::Lazy), record_gates: true, snapshot_level: 2, jitter_const: jitter, send_cost_ms: None, no_loop }));
     let lazy = f(seed);
-    set_overrides(Some(Overrides { stepping: Some(Stepping::Eager(g)), record_gates: false, snapshot_level: 0, jitter_const: jitter, send_cost_ms: None }));
+    set_overrides(Some(Overrides { stepping: Some(Stepping::Eager(g)), record_gates: false, snapshot_level: 0, jitter_const: jitter, send_cost_ms: None, no_loop }));
     let eager = f(seed);
     // a third run in which every datagram sent costs 1-3 ms: timers fall due while the daemon is busy
     let cost = 1 + util::mix(seed, 8) % 3;
     let busy = if util::mix(seed, 9) % 4 != 0 {
-        set_overrides(Some(Overrides { stepping: Some(Stepping::Lazy), record_gates: true, snapshot_level: 0, jitter_const: jitter, send_cost_ms: Some(cost) }));
+        set_overrides(Some(Overrides { stepping: Some(Stepping::Lazy), record_gates: true, snapshot_level: 0, jitter_const: jitter, send_cost_ms: Some(cost), no_loop }));
         Some(f(seed))
     } else {
         None
